@@ -207,7 +207,7 @@ def run_perturb(u):
     rep.add_interp(I)
     return rep
 
-def in_table(lc): return not lc.option
+def in_table(lc): return not lc.option or lc.label.startswith('member:')
 
 _nat = None
 def nat():
@@ -367,7 +367,10 @@ def all_labels(cfgname, n):
     sim = P.build_engine_state(I, P.CONFIGS[cfgname], n)
     locs = P.locations(I, sim, P.read_table(I), P.documented_options())
     tab = {e['name']: e['dtype'] for e in P.read_table(I)}
-    return [l.label for l in locs if l.field not in KEEP0 and not l.option and not l.label.startswith('count:')], {l.label: tab.get(l.field, '?') for l in locs}
+    # 'member:<name>' = the bytes of the struct member a table entry is NAMED after, when the table's own offset points elsewhere: the
+    # name denotes a persisted quantity, so its real bytes are perturbed too (first, so that the quick tier always includes them)
+    named = [l.label for l in locs if l.label.startswith('member:') and l.field in tab and l.field not in KEEP0]
+    return named + [l.label for l in locs if l.field not in KEEP0 and not l.option and not l.label.startswith('count:')], {l.label: tab.get(l.field, '?') for l in locs}
 
 def _labels_job(c): return all_labels(c, 2)
 
@@ -390,7 +393,7 @@ def main():
             seen = {}; sel = []
             for l in labels:
                 f = l.split('[')[0].split('+')[0]
-                if l.startswith('particles[1]') or l.startswith('var_config') or l.startswith('walltime'): sel.append(l); continue
+                if l.startswith('particles[1]') or l.startswith('var_config') or l.startswith('walltime') or l.startswith('member:'): sel.append(l); continue
                 if '[' in l or '+' in l:
                     if f not in seen: seen[f] = 1; sel.append(l)
                     continue
